@@ -234,6 +234,31 @@ fn main() {
                 "ky": key(rv), "kstd": key(st), "sy": sc(rv), "sstd": sc(st), "sx": sc(base), "panic": p})).unwrap();
         }
     }
+    // ---- square roots over the WHOLE positive range, and the exponential (libm / std have one)
+    #[cfg(any(feature = "libm", feature = "mm", feature = "std"))]
+    {
+        let mut rng = Rng(seed ^ 0x5C27);
+        for i in 0..(if thorough { 60_000 } else { 6_000 }) {
+            let pos = match i % 40 {
+                0 => f32::MAX,
+                1 => f32::MIN_POSITIVE,
+                2 => 3.0e38,
+                3 => 1.7e38,
+                _ => (2f64.powf((rng.unit() - 0.5) * 252.0)) as f32,
+            };
+            if pos > 0.0 && pos.is_finite() {
+                emit1(&mut out, be, "sel", "sqrt", pos, guard(|| ff::sqrt(pos)), pos.sqrt());
+            }
+        }
+    }
+    #[cfg(any(feature = "libm", feature = "std"))]
+    {
+        let mut rng = Rng(seed ^ 0xE4B);
+        for i in 0..(if thorough { 60_000 } else { 6_000 }) {
+            let x = match i % 3 { 0 => ((rng.unit() - 0.5) * 174.0) as f32, 1 => ((rng.unit() - 0.5) * 4.0) as f32, _ => ((rng.unit() - 0.5) * 40.0) as f32 };
+            emit1(&mut out, be, "sel", "exp", x, guard(|| ff::exp(x)), x.exp());
+        }
+    }
     // ---- the same functions at the ends and special points of their domains
     #[cfg(any(feature = "libm", feature = "mm", feature = "std"))]
     {
